@@ -120,7 +120,7 @@ char g_xname[12];
 #define FS_FRAME_FILES g_st, g_jfin, g_fsfault, __CPROVER_errno, \
 	g_in_open, g_in_tree, g_in_id, g_in_err, g_in_pos, g_in_len, g_in_byte, g_in_gen, \
 	g_out_open, g_out_tree, g_out_id, g_out_err, g_out_pos, g_out_match, g_out_gen
-#define FS_FRAME g_st, g_jfin, g_fsfault, g_dirent, g_dmask, g_rmdir_errno, __CPROVER_errno, \
+#define FS_FRAME g_st, g_jfin, g_fsfault, g_dirent, g_dmask, g_rmdir_errno, g_rmdir_tree, __CPROVER_errno, \
 	g_in_open, g_in_tree, g_in_id, g_in_err, g_in_pos, g_in_len, g_in_byte, g_in_gen, \
 	g_out_open, g_out_tree, g_out_id, g_out_err, g_out_pos, g_out_match, g_out_gen
 /* no output stream open: g_st is the whole truth; counters cannot wrap (tiered: a caller's bound implies its callees') */
